@@ -176,6 +176,10 @@ func (a *FuncAn) valName(v ssa.Value) string {
 		}
 	case *ssa.Extract:
 		return fmt.Sprintf("%s#%d", a.valName(x.Tuple), x.Index)
+	case *ssa.TypeAssert:
+		return a.valName(x.X) + ".(" + types.TypeString(x.AssertedType, func(*types.Package) string { return "" }) + ")"
+	case *ssa.Lookup:
+		return a.valName(x.X) + "[" + a.valName(x.Index) + "]"
 	case *ssa.Convert:
 		return a.valName(x.X)
 	case *ssa.ChangeType:
